@@ -275,8 +275,12 @@ def prio_policy(order, burst=8, patience=60):
             if i not in cands:
                 cands.append(i)
         pick = cands[0]
-        if labs[pick] == state['last'] and state['n'] >= burst and len(cands) > 1:
-            pick = cands[1]
+        if labs[pick] == state['last'] and state['n'] >= burst:
+            # give way to another THREAD (never to TIME: virtual time must not jump while a
+            # preferred thread is in the middle of something)
+            alt = [i for i in cands[1:] if labs[i] != TIME]
+            if alt:
+                pick = alt[0]
         starving = [i for i, lab in enumerate(labs) if lab != TIME and sched.step - state['seen'][lab] > patience]
         if starving:
             pick = starving[0]
